@@ -20,6 +20,7 @@ structure Res where
   axes : List (Key × Nat)
   vals : List Val
   jobs : Nat
+  jobOuts : List Val := []       -- what every job returned (before combining), in job order
   deriving Inhabited
 
 abbrev Env := List (Name × Res)
@@ -73,8 +74,7 @@ def fieldVal (env : Env) (al : Aliases) (nd : Node) (axes : List Key) (coords : 
     | none => .null
 
 def jobOut (env : Env) (al : Aliases) (nd : Node) (axes : List Key) (coords : List Nat) : Val :=
-  .list [.tag nd.name, fieldVal env al nd axes coords .x, fieldVal env al nd axes coords .y,
-         fieldVal env al nd axes coords .z]
+  nd.encode (fieldVal env al nd axes coords .x) (fieldVal env al nd axes coords .y) (fieldVal env al nd axes coords .z)
 
 def upAxes (env : Env) (nd : Node) : Except String (List (Key × Nat)) :=
   nd.lazyUps.foldlM (init := []) fun acc (_, u) =>
@@ -91,13 +91,13 @@ def evalNode (env : Env) (al : Aliases) (nd : Node) : Except String (Res × Alia
   let points := rowMajor (axes.map (·.2))
   let outs := points.map fun c => (c, jobOut env al nd keys c)
   if nd.comb.isEmpty then
-    return ({ axes := axes, vals := outs.map (·.2), jobs := outs.length }, al)
+    return ({ axes := axes, vals := outs.map (·.2), jobs := outs.length, jobOuts := outs.map (·.2) }, al)
   else
     let combAxes := nd.comb.map (resolve al)
     let keep := axes.filter fun a => !(combAxes.contains a.1)
     let groups := (rowMajor (keep.map (·.2))).map fun fc =>
       Val.list ((outs.filter fun (c, _) => (keep.map fun a => coordOf keys c a.1) == fc).map (·.2))
-    return ({ axes := keep, vals := groups, jobs := outs.length }, al)
+    return ({ axes := keep, vals := groups, jobs := outs.length, jobOuts := outs.map (·.2) }, al)
 
 def evalNodes (env : Env) (al : Aliases) : List Node → Except String Env
   | [] => .ok env
@@ -109,6 +109,7 @@ def evalNodes (env : Env) (al : Aliases) : List Node → Except String Env
 structure Result where
   outs : List Val
   jobs : List (Name × Nat)
+  jobOuts : List (Name × List Val) := []
   deriving Inhabited
 
 def outVal (r : Res) : Val :=
@@ -119,6 +120,6 @@ def run (w : Wf) : Except String Result := do
   let outs ← w.outs.mapM fun o => match env.get o with
     | some r => Except.ok (outVal r)
     | none => Except.error "unknown-output"
-  return { outs := outs, jobs := env.map fun (n, r) => (n, r.jobs) }
+  return { outs := outs, jobs := env.map fun (n, r) => (n, r.jobs), jobOuts := env.map fun (n, r) => (n, r.jobOuts) }
 
 end PydraModel.WfState.Spec
